@@ -277,6 +277,69 @@ func (d *drv) nHandlers() int {
 func (d *drv) execSlot(op opRec) (rv int64) {
 	sl := d.slots[op.S]
 	switch op.T {
+	case "remev":
+		// the handler of another open subscription of the same informer holds the broadcast of the event up; meanwhile
+		// this slot's handlers are removed from another goroutine
+		var slow *hrec
+		for s := 1; s <= tNS && slow == nil; s++ {
+			if o := d.slots[s]; s != op.S && o != nil && o.sub != nil && o.open && o.res == sl.res {
+				for _, x := range o.hs {
+					x.mu.Lock()
+					ok := !x.removed && (slow == nil)
+					if ok && !x.own {
+						slow = x
+					}
+					x.mu.Unlock()
+				}
+				if slow == nil {
+					for _, x := range o.hs {
+						x.mu.Lock()
+						if !x.removed && slow == nil {
+							slow = x
+						}
+						x.mu.Unlock()
+					}
+				}
+			}
+		}
+		if slow == nil {
+			fail("remev: no handler of another open subscription of resource %d", sl.res)
+		}
+		done := make(chan struct{})
+		started := make(chan struct{})
+		slow.mu.Lock()
+		slow.onFirst = func() {
+			go func() {
+				close(started)
+				sl.sub.Informer().RemoveEventHandlers()
+				for _, h := range sl.hs {
+					h.mu.Lock()
+					h.removed = true
+					h.mu.Unlock()
+				}
+				close(done)
+			}()
+			<-started
+			select {
+			case <-done:
+				// the removal did not have to wait for the broadcast: give the rest of the broadcast a moment
+				time.Sleep(2 * time.Millisecond)
+			case <-time.After(addEvWindow):
+			}
+		}
+		slow.mu.Unlock()
+		ri, name := d.objMeta(sl.res, op.O)
+		t := "oupd"
+		if d.srv.Get(ri.key, ri.ns, name) == nil {
+			t = "oadd"
+		}
+		rv = d.execObj(opRec{T: t, R: sl.res, O: op.O})
+		select {
+		case <-done:
+		case <-time.After(d.timeout):
+			fail("remev: the removal did not return")
+		}
+		return rv
 	case "addev":
 		h := d.handler(op.H)
 		h.slot, h.res, h.own = op.S, sl.res, op.Own
@@ -667,7 +730,7 @@ func runSeq(sc *scenario, out *lineWriter, timeout time.Duration) bool {
 		switch op.T {
 		case "sub", "add", "rem", "close":
 			pmsg = guarded(func() { d.execSlot(op) })
-		case "addev":
+		case "addev", "remev":
 			pmsg = guarded(func() { op.RV = d.execSlot(op) })
 		case "oadd", "oupd", "odel":
 			op.RV = d.execObj(op)
@@ -676,7 +739,7 @@ func runSeq(sc *scenario, out *lineWriter, timeout time.Duration) bool {
 		}
 		settled, miss, note := true, []int{}, ""
 		if pmsg == "" {
-			if op.T == "rem" && d.hadOwn(op.S) {
+			if (op.T == "rem" || op.T == "remev") && d.hadOwn(op.S) {
 				time.Sleep(silentWindow)
 			}
 			settled, miss, note = d.barrier(st)
